@@ -312,7 +312,7 @@ rec(CV + 'SeismicFileConverter.__init__', 'converter_init', CLI_FUNCS)
 rec(CV + 'SeismicFileConverter.run', 'converter_run', CLI_FUNCS)
 rec(CV + 'SgzConverter.__init__', 'sgz_converter_init', CLI_FUNCS)
 rec(CV + 'SgzConverter.convert_to_segy', 'convert_to_segy', CLI_FUNCS)
-rec('read.py::SgzReader.close', 'close', CLI_FUNCS)
+rec('read.py::SgzReader.close', 'close', CLI_FUNCS + ('cube',))
 
 
 def register_cli_models(lib):
@@ -371,3 +371,115 @@ class CliSgz2Sgy(Contract):
 
 
 fuc('cli.py::sgz2sgy', props=['C06'])(CliSgz2Sgy)
+
+
+# ---------------------------------------------------------------------------------------------
+# tools.* and the segyio emulator object (C13 / C02): which reader method / accessor stands behind each documented attribute
+
+TOOLS = ('tools.py::cube',)
+rec('read.py::SgzReader.read_volume', 'read_volume', ('cube',), lambda c, a: SObj(None, clsname='$volume'))
+rec('read.py::SgzReader.__init__', 'reader_init_for_cube', ('cube',))
+
+
+class ToolsCube(Contract):
+    """tools.cube(filename) = read_volume() of a reader opened on that file, which is closed afterwards"""
+    may_raise = ()
+
+    def inputs(self, c):
+        return dict(filename='x.sgz')
+
+    def post(self, c, a, result):
+        calls = c.ghost.get('glue_calls', [])
+        tags = [t for (t, _, _) in calls]
+        c.ensure(mk_bool(tags[:2] == ['reader_init_for_cube', 'read_volume'] and tags[2:] in ([], ['close'])), 'open_read_volume_close')
+        if tags[:2] == ['reader_init_for_cube', 'read_volume']:
+            c.ensure(mk_bool(calls[0][1]['file'] == 'x.sgz' and calls[1][1]['self'] is calls[0][1]['self'] and result is calls[1][2]), 'the_whole_volume_of_that_file')
+            c.ensure(mk_bool('close' in tags), 'reader_closed')
+
+
+fuc('tools.py::cube', props=['C02', 'C13'])(ToolsCube)
+
+
+class ToolsDt(Contract):
+    """tools.dt(reader) = 1000 * (samples[1] - samples[0]): the sample interval in microseconds of the reader's sample axis"""
+    may_raise = ()
+
+    def inputs(self, c):
+        from . import objects as O
+        n = c.sym_int('n', lo=2, name='n_samples')
+        ax = O.axis_float(c, 'zslices', n)
+        rd = SObj(None, clsname='$emu')
+        rd.fields['samples'] = ax
+        return dict(reader=rd, _dz=ax.prog[1])
+
+    def post(self, c, a, result):
+        from pyvc.values import zreal
+        c.ensure(mk_bool(zreal(result) == 1000 * zreal(a['_dz'])), 'thousand_times_the_sample_step')
+
+
+fuc('tools.py::dt', props=['C13', 'C05'])(ToolsDt)
+
+
+EMU = ('SegyioEmulator.__init__',)
+for _k in ('InlineAccessor', 'CrosslineAccessor', 'ZsliceAccessor', 'HeaderAccessor', 'TraceAccessor', 'SubvolumeAccessor'):
+    rec(f'accessors.py::{_k}.__init__', 'acc_' + _k, EMU)
+rec('read.py::SgzReader.get_file_binary_header', 'bin', EMU, lambda c, a: SObj(None, clsname='$binhdr'))
+rec('read.py::SgzReader.get_file_text_header', 'text', EMU, lambda c, a: ['<text>'])
+
+
+class EmuReaderInit(_Rec):
+    """call-site view of SgzReader.__init__ inside the emulator: dimensionality, sample axis and the handle are set"""
+    tag = 'emu_reader_init'
+    only_in = EMU
+
+    def value(self, c, a):
+        me = a['self']
+        from . import objects as O
+        f = IO.new_file(BM.K_FILE, 'rb', '<sgz>')
+        two_d = c.ghost.get('emu_two_d', False)
+        me.fields.update(file=f, is_3d=not two_d, is_2d=two_d, zslices=O.axis_float(c, 'zslices', c.sym_int('nZ', lo=2, name='n_samples')))
+        return None
+
+
+fuc('read.py::SgzReader.__init__', props=[], modular=True)(EmuReaderInit)
+
+
+class EmulatorInit(Contract):
+    """SegyioEmulator(file): a reader on the file whose documented attributes are: trace / header / iline / xline / depth_slice / subvolume =
+    the accessor of that kind on the SAME handle (3-D); iline / xline / depth_slice refuse with the dimensionality error for 2-D files;
+    samples = the sample axis; attributes = get_tracefield_1d; bin / text from the stored SEG-Y file header"""
+    two_d = False
+    may_raise = ()
+
+    def inputs(self, c):
+        c.ghost['emu_two_d'] = self.two_d
+        me = SObj(c.ex.prog.klass('SegyioEmulator'), {})
+        return dict(self=me, file='x.sgz', chunk_cache_size=None)
+
+    def post(self, c, a, result):
+        from pyvc.symex import BoundMethod
+        me = a['self']
+        F_ = me.fields
+        calls = c.ghost.get('glue_calls', [])
+        accs = {t[4:]: args for (t, args, _) in calls if t.startswith('acc_')}
+        c.ensure(mk_bool(any(t == 'emu_reader_init' and args['file'] == 'x.sgz' and args.get('chunk_cache_size') is None for (t, args, _) in calls)), 'reader_on_the_given_file')
+        want = ['TraceAccessor', 'HeaderAccessor'] + ([] if self.two_d else ['InlineAccessor', 'CrosslineAccessor', 'ZsliceAccessor', 'SubvolumeAccessor'])
+        c.ensure(mk_bool(sorted(accs) == sorted(want)), 'exactly_the_accessors_of_this_dimensionality')
+        names = {'trace': 'TraceAccessor', 'header': 'HeaderAccessor', 'iline': 'InlineAccessor', 'xline': 'CrosslineAccessor', 'depth_slice': 'ZsliceAccessor', 'subvolume': 'SubvolumeAccessor'}
+        for attr, cls in names.items():
+            obj = F_.get(attr)
+            if cls in want:
+                ok = isinstance(obj, SObj) and obj.cls is not None and obj.cls.name == cls and cls in accs and accs[cls]['self'] is obj and accs[cls]['file'] is F_['file']
+                c.ensure(mk_bool(ok), f'{attr}.is_the_{cls}_on_the_same_handle')
+            elif attr != 'subvolume':
+                ok = isinstance(obj, SObj) and obj.cls is not None and obj.cls.name == 'DimensionalityError'
+                c.ensure(mk_bool(ok), f'{attr}.refuses_on_2d_files')
+        c.ensure(mk_bool(F_.get('samples') is F_.get('zslices')), 'samples_is_the_sample_axis')
+        at = F_.get('attributes')
+        c.ensure(mk_bool(isinstance(at, BoundMethod) and at.obj is me and at.finfo.qualname.endswith('.get_tracefield_1d')), 'attributes_is_get_tracefield_1d')
+        c.ensure(mk_bool(getattr(F_.get('bin'), 'clsname', None) == '$binhdr' and F_.get('text') == ['<text>']), 'bin_and_text_from_the_stored_file_header')
+        c.ensure(mk_bool(F_.get('unstructured') is self.two_d), 'unstructured_flag')
+
+
+for _2d in (False, True):
+    fuc('segyio_emulator.py::SegyioEmulator.__init__', props=['C13', 'C15'])(type('EmulatorInit' + ('2d' if _2d else ''), (EmulatorInit,), dict(two_d=_2d, variant='2d' if _2d else '3d')))
